@@ -1425,6 +1425,10 @@ RCP<const Boolean> Complement::contains(const RCP<const Basic> &a) const
 
 RCP<const Set> Complement::set_union(const RCP<const Set> &o) const
 {
+    if (not is_a<UniversalSet>(*universe_)) {
+        // the identity below needs o to be a subset of the universe
+        return SymEngine::make_set_union({rcp_from_this_cast<const Set>(), o});
+    }
     // A' U C = (A n C')'
     RCP<const Set> ocomplement = o->set_complement(universe_);
     RCP<const Set> intersect
